@@ -244,6 +244,80 @@ pub fn check_case(c: &Case) -> Vec<Violation> {
     v
 }
 
+const LOCAL_TYPES: [ValType; 7] = [ValType::I32, ValType::I64, ValType::F32, ValType::F64, ValType::V128, ValType::Ref(RefType::Funcref), ValType::Ref(RefType::Externref)];
+
+/// a function with one non-parameter local per entry of `tys` (indices into LOCAL_TYPES), each
+/// written with a value of its own type and read back; `params` leading parameters of type i64
+fn build_locals(tys: &[usize], params: usize) -> Vec<u8> {
+    let mut m = Module::default();
+    let ptys: Vec<ValType> = (0..params).map(|_| ValType::I64).collect();
+    let args: Vec<LocalId> = ptys.iter().map(|t| m.locals.add(*t)).collect();
+    let locals: Vec<(LocalId, ValType)> = tys.iter().map(|i| (m.locals.add(LOCAL_TYPES[*i]), LOCAL_TYPES[*i])).collect();
+    let mut fb = FunctionBuilder::new(&mut m.types, &ptys, &[]);
+    {
+        let mut s = fb.func_body();
+        // written in reverse creation order, so that first use and creation order differ
+        for (l, t) in locals.iter().rev() {
+            match t {
+                ValType::I32 => s.i32_const(1),
+                ValType::I64 => s.i64_const(2),
+                ValType::F32 => s.f32_const(3.0),
+                ValType::F64 => s.f64_const(4.0),
+                ValType::V128 => s.const_(Value::V128(5)),
+                ValType::Ref(r) => s.ref_null(*r),
+            };
+            s.local_set(*l).local_get(*l).drop();
+        }
+        for a in &args {
+            s.local_get(*a).drop();
+        }
+    }
+    let f = fb.finish(args, &mut m.funcs);
+    m.exports.add("subject", f);
+    m.emit_wasm()
+}
+
+pub fn check_locals_case(c: &Case) -> Vec<Violation> {
+    let tys: Vec<usize> = c.cfg["local_types"].as_array().map(|a| a.iter().filter_map(|x| x.as_u64()).map(|x| x as usize).collect()).unwrap_or_default();
+    let params = c.cfg["params"].as_u64().unwrap_or(0) as usize;
+    let mut v = vec![];
+    let wasm = match catch_unwind(AssertUnwindSafe(|| build_locals(&tys, params))) {
+        Ok(x) => x,
+        Err(p) => {
+            v.push(Violation::new("C15", format!("builder-locals-panic:{}", crate::pipe::norm_panic(&panic_msg(p))), format!("building / emitting locals {:?} panicked", tys), c));
+            return v;
+        }
+    };
+    if let Err(e) = wmodel::validate214(&wasm, wmodel::FeatureSet::DEFAULT) {
+        v.push(Violation::new("C15", "builder-locals-slot-type-wrong", format!("locals of types {:?} (+{} parameters), each written and read with its own type: the emitted module does not validate: {}", tys.iter().map(|i| format!("{:?}", LOCAL_TYPES[*i])).collect::<Vec<_>>(), params, e), c));
+        return v;
+    }
+    // one slot per local, parameters first
+    if let Ok(w) = wmodel::decode(&wasm) {
+        if let Some(b) = w.exports.iter().find(|e| e.name == "subject").and_then(|e| w.funcs.get(e.index as usize)).and_then(|f| f.body.as_ref()) {
+            if b.locals.len() != tys.len() {
+                v.push(Violation::new("C15", "builder-locals-slot-count", format!("{} used locals, {} declared slots", tys.len(), b.locals.len()), c));
+            }
+        }
+    }
+    v
+}
+
+pub fn locals_cases() -> Vec<Case> {
+    let mut out = vec![];
+    let n = LOCAL_TYPES.len();
+    for len in 1..=3usize {
+        for code in 0..n.pow(len as u32) {
+            let mut c = code;
+            let tys: Vec<usize> = (0..len).map(|_| { let t = c % n; c /= n; t }).collect();
+            for params in [0usize, 2] {
+                out.push(Case { family: "builder-locals".into(), coords: format!("types={:?} params={}", tys, params), wasm: vec![], cfg: json!({"locals_census": true, "local_types": tys, "params": params}) });
+            }
+        }
+    }
+    out
+}
+
 pub fn cases() -> Vec<Case> {
     let mut out = vec![];
     for kind in KINDS {
